@@ -92,6 +92,7 @@ type FailReader struct {
 	At       int
 	Err      error // the error to fail with (default ErrInjected)
 	Once     bool  // the error is reported once; later calls say io.EOF (a connection after a reset)
+	Resume   bool  // the error is reported once; later calls go on delivering the data (a transient failure)
 	pos      int
 	Returned int // how many times the error was returned to the caller
 }
@@ -103,6 +104,12 @@ func (f *FailReader) Read(p []byte) (int, error) {
 	limit := f.At
 	if limit > len(f.Data) {
 		limit = len(f.Data)
+	}
+	if f.Resume && f.Returned > 0 {
+		limit = len(f.Data)
+		if f.pos >= limit {
+			return 0, io.EOF
+		}
 	}
 	if f.pos >= limit {
 		if f.pos >= len(f.Data) && f.At >= len(f.Data) {
